@@ -1,4 +1,5 @@
 import ButlerModel.Model.Transfer
+import ButlerModel.Gen.ExportOrderPy
 /-! # C19 — export/import and transfer reproduce the selection exactly -/
 namespace C19
 open Transfer
@@ -295,3 +296,193 @@ example : importInto { ds := [(1, 5)] } { ds := [(1, 5), (2, 6)], tags := [(7, 1
 example : importInto { ds := [(1, 5)] } { ds := [(1, 9)] } = none := by decide
 
 end C19
+
+/-! ### The order in which an export writes collections, as generated from the source on every run (`Gen/ExportOrderPy.lean`) -/
+namespace C19.Translated
+open ExportOrder Gen.ExportOrderPy
+
+theorem mem_ins (x y : Nat) (l : List Nat) : y ∈ ins x l ↔ y = x ∨ y ∈ l := by
+  induction l with
+  | nil => simp [ins]
+  | cons z r ih =>
+    simp only [ins]
+    split
+    · simp
+    · simp only [List.mem_cons, ih]
+      constructor
+      · rintro (h | h | h)
+        · exact Or.inr (Or.inl h)
+        · exact Or.inl h
+        · exact Or.inr (Or.inr h)
+      · rintro (h | h | h)
+        · exact Or.inr (Or.inl h)
+        · exact Or.inl h
+        · exact Or.inr (Or.inr h)
+
+theorem mem_sorted (l : List Nat) (x : Nat) : x ∈ sorted l ↔ x ∈ l := by
+  induction l with
+  | nil => simp [sorted]
+  | cons y r ih =>
+    have : sorted (y :: r) = ins y (sorted r) := rfl
+    rw [this, mem_ins, ih]; simp
+
+theorem isKey_iff (cs : Chains) (c : Nat) : isKey cs c = true ↔ ∃ kids, (c, kids) ∈ cs := by
+  simp only [isKey, List.any_eq_true, beq_iff_eq]
+  constructor
+  · rintro ⟨⟨p, k⟩, hm, rfl⟩; exact ⟨k, hm⟩
+  · rintro ⟨k, hm⟩; exact ⟨(c, k), hm, rfl⟩
+
+/-- everything still to be emitted is emitted, after what was there -/
+theorem loop_emits : ∀ (f : Nat) (cs : Chains) (res out : List Nat), loop f cs res = .ok out →
+    ∃ rest, out = res ++ rest ∧ ∀ p kids, (p, kids) ∈ cs → p ∈ rest := by
+  intro f
+  induction f with
+  | zero =>
+    intro cs res out h
+    simp only [loop] at h
+    split at h
+    · rename_i he
+      simp only [Except.ok.injEq] at h
+      refine ⟨[], by simp [h], ?_⟩
+      intro p kids hm
+      simp only [List.isEmpty_iff] at he
+      rw [he] at hm; cases hm
+    · cases h
+  | succ f ih =>
+    intro cs res out h
+    simp only [loop] at h
+    split at h
+    · rename_i he
+      simp only [Except.ok.injEq] at h
+      refine ⟨[], by simp [h], ?_⟩
+      intro p kids hm
+      simp only [List.isEmpty_iff] at he
+      rw [he] at hm; cases hm
+    · split at h
+      · cases h
+      · obtain ⟨rest, hout, hall⟩ := ih _ _ _ h
+        refine ⟨sorted (unblocked cs) ++ rest, by rw [hout, List.append_assoc], ?_⟩
+        intro p kids hm
+        by_cases hu : p ∈ unblocked cs
+        · exact List.mem_append_left _ ((mem_sorted _ _).mpr hu)
+        · apply List.mem_append_right
+          apply hall p kids
+          simp only [List.mem_filter, List.contains_eq_mem, Bool.not_eq_true', decide_eq_false_iff_not]
+          exact ⟨hm, hu⟩
+
+theorem eq_of_nodup_fst : ∀ (cs : Chains), (cs.map (·.1)).Nodup → ∀ a b, a ∈ cs → b ∈ cs → a.1 = b.1 → a = b := by
+  intro cs
+  induction cs with
+  | nil => intro _ a b ha; cases ha
+  | cons x r ih =>
+    intro hnd a b ha hb hab
+    simp only [List.map_cons, List.nodup_cons, List.mem_map, not_exists, not_and] at hnd
+    rcases List.mem_cons.mp ha with rfl | ha' <;> rcases List.mem_cons.mp hb with rfl | hb'
+    · rfl
+    · exact absurd hab.symm (hnd.1 b hb')
+    · exact absurd hab (hnd.1 a ha')
+    · exact ih hnd.2 a b ha' hb' hab
+
+/-- `c` is emitted before `p` -/
+def Before (out : List Nat) (c p : Nat) : Prop := ∃ l1 l2, out = l1 ++ p :: l2 ∧ c ∈ l1
+
+/-- **Chains follow their children**: in the order the export writes (and the import registers) collections, every CHAINED
+collection comes after each of its children that is itself an exported chain. -/
+theorem chains_follow_children : ∀ (f : Nat) (cs : Chains) (res out : List Nat), (cs.map (·.1)).Nodup → loop f cs res = .ok out →
+    ∀ p kids c, (p, kids) ∈ cs → c ∈ kids → isKey cs c = true → Before out c p := by
+  intro f
+  induction f with
+  | zero =>
+    intro cs res out _ h p kids c hm _ _
+    simp only [loop] at h
+    split at h
+    · rename_i he
+      simp only [List.isEmpty_iff] at he
+      rw [he] at hm; cases hm
+    · cases h
+  | succ f ih =>
+    intro cs res out hnd h p kids c hm hc hk
+    simp only [loop] at h
+    split at h
+    · rename_i he
+      simp only [List.isEmpty_iff] at he
+      rw [he] at hm; cases hm
+    · split at h
+      · cases h
+      · -- p cannot be unblocked: its child c is still a chain to emit
+        have hpu : p ∉ unblocked cs := by
+          intro hp
+          simp only [unblocked, List.mem_map, List.mem_filter, Bool.not_eq_true', List.any_eq_false] at hp
+          obtain ⟨a, ⟨ha, hfree⟩, hap⟩ := hp
+          have : a = (p, kids) := eq_of_nodup_fst cs hnd a (p, kids) ha hm hap
+          subst this
+          exact hfree c hc hk
+        have hm' : (p, kids) ∈ cs.filter (fun pc => !(unblocked cs).contains pc.1) := by
+          simp only [List.mem_filter, List.contains_eq_mem, Bool.not_eq_true', decide_eq_false_iff_not]
+          exact ⟨hm, hpu⟩
+        by_cases hcu : c ∈ unblocked cs
+        · obtain ⟨rest, hout, hall⟩ := loop_emits _ _ _ _ h
+          have hp := hall p kids hm'
+          obtain ⟨a, b, hab⟩ := List.append_of_mem hp
+          refine ⟨res ++ sorted (unblocked cs) ++ a, b, ?_, ?_⟩
+          · rw [hout, hab]; simp [List.append_assoc]
+          · exact List.mem_append_left _ (List.mem_append_right _ ((mem_sorted _ _).mpr hcu))
+        · have hnd' : ((cs.filter (fun pc => !(unblocked cs).contains pc.1)).map (·.1)).Nodup :=
+            List.Nodup.sublist (List.Sublist.map _ List.filter_sublist) hnd
+          apply ih _ _ _ hnd' h p kids c hm' hc
+          obtain ⟨ck, hck⟩ := (isKey_iff cs c).mp hk
+          apply (isKey_iff _ c).mpr
+          refine ⟨ck, ?_⟩
+          simp only [List.mem_filter, List.contains_eq_mem, Bool.not_eq_true', decide_eq_false_iff_not]
+          exact ⟨hck, hcu⟩
+
+/-- the fuel `sortedCollections` gives the loop (one step per chain) is never exhausted: every round removes a chain -/
+theorem fuel_suffices : ∀ (f : Nat) (cs : Chains) (res : List Nat), cs.length ≤ f → loop f cs res ≠ .error "fuel" := by
+  intro f
+  induction f with
+  | zero =>
+    intro cs res hl
+    have : cs = [] := List.length_eq_zero_iff.mp (by omega)
+    subst this
+    simp [loop]
+  | succ f ih =>
+    intro cs res hl
+    simp only [loop]
+    split
+    · simp
+    · split
+      · simp
+      · rename_i hne hu
+        apply ih
+        have hex : ∃ x, x ∈ unblocked cs := by
+          cases hux : unblocked cs with
+          | nil => simp [hux] at hu
+          | cons a r => exact ⟨a, by simp⟩
+        obtain ⟨x, hx⟩ := hex
+        have hx' := hx
+        simp only [unblocked, List.mem_map, List.mem_filter] at hx'
+        obtain ⟨pc, ⟨hpc, _⟩, hpx⟩ := hx'
+        have hlt : (cs.filter fun pc => !(unblocked cs).contains pc.1).length < cs.length := by
+          apply List.length_filter_lt_length_iff_exists.mpr
+          refine ⟨pc, hpc, ?_⟩
+          simp [hpx, hx]
+        omega
+
+/-- **The export order of collections**: for distinct collection names, when `_computeSortedCollections` returns, every CHAINED
+collection stands after each of its children that is an exported chain, and after every collection that is not a chain. -/
+theorem export_order (records : List (Nat × Option (List Nat))) (out : List Nat)
+    (hnd : ((split records).1.map (·.1)).Nodup) (h : sortedCollections records = .ok out) :
+    (∀ p kids c, (p, kids) ∈ (split records).1 → c ∈ kids → isKey (split records).1 c = true → Before out c p) ∧
+    (∀ p kids x, (p, kids) ∈ (split records).1 → x ∈ (split records).2 → Before out x p) := by
+  refine ⟨chains_follow_children _ _ _ _ hnd h, ?_⟩
+  intro p kids x hp hx
+  obtain ⟨rest, hout, hall⟩ := loop_emits _ _ _ _ h
+  obtain ⟨a, b, hab⟩ := List.append_of_mem (hall p kids hp)
+  exact ⟨(split records).2 ++ a, b, by rw [hout, hab, List.append_assoc], List.mem_append_left _ hx⟩
+
+/-- a cycle among the exported chains is reported, not looped on or silently cut -/
+example : (match sortedCollections [(1, some [2]), (2, some [1]), (3, none)] with | .error e => e == "RuntimeError" | .ok _ => false) = true := by decide
+/-- non-vacuity: chain 5 ⊇ {chain 4, run 1}, chain 4 ⊇ {run 2}: runs first (sorted), then 4, then 5 -/
+example : (match sortedCollections [(5, some [4, 1]), (2, none), (4, some [2]), (1, none)] with | .ok l => l == [1, 2, 4, 5] | .error _ => false) = true := by decide
+
+end C19.Translated
